@@ -79,10 +79,10 @@ func (node *GitNode) Read() ([]byte, error) {
 	return node.ReadContext(context.Background())
 }
 
-func (node *GitNode) ReadContext(_ context.Context) ([]byte, error) {
+func (node *GitNode) ReadContext(ctx context.Context) ([]byte, error) {
 	fs := memfs.New()
 	storer := memory.NewStorage()
-	_, err := git.Clone(storer, fs, &git.CloneOptions{
+	_, err := git.CloneContext(ctx, storer, fs, &git.CloneOptions{
 		URL:           node.URL.String(),
 		ReferenceName: plumbing.ReferenceName(node.ref),
 		SingleBranch:  true,
